@@ -32,6 +32,9 @@ type replaySpec struct {
 }
 
 const replayMaxLen = 48
+const replaySliceMax = 3
+
+var replayImports map[string]string
 
 type matVal struct {
 	goExpr  string   // Go expression constructing the value
@@ -117,6 +120,84 @@ func (x *Exec) materialise(t types.Type, term Term, st *State, depth int) (*matV
 				return fmt.Sprintf("%s(append(make([]byte, 0, %d), []byte{%s}...)[:%d])", types.TypeString(t, qualifier), c, strings.Join(bs, ","), n), true
 			}}, bound
 		}
+		// slice of other element types: at most replaySliceMax elements
+		if depth > 2 {
+			return nil, nil
+		}
+		es := x.sortOf(u.Elem())
+		h := x.heap(st, es)
+		ln, base := sLen(term).S, sBase(term).S
+		qs := []string{ln, base}
+		bound := []string{fmt.Sprintf("(bvule %s %s)", ln, bv64(replaySliceMax).S)}
+		var elems []*matVal
+		for i := 0; i < replaySliceMax; i++ {
+			et := Select(Select(h, sBase(term)), App(SBV64, "bvadd", sOff(term), bv64(uint64(i))))
+			m, b := x.materialise(u.Elem(), et, st, depth+1)
+			if m == nil {
+				return nil, nil
+			}
+			elems = append(elems, m)
+			qs = append(qs, m.queries...)
+			bound = append(bound, b...)
+		}
+		return &matVal{queries: qs, build: func(v map[string]string) (string, bool) {
+			n, ok := parseBV(v[ln])
+			if !ok || n > replaySliceMax {
+				return "", false
+			}
+			if strings.TrimSpace(v[base]) == "0" {
+				return fmt.Sprintf("%s(nil)", types.TypeString(t, qualifier)), true
+			}
+			var parts []string
+			for i := 0; i < int(n); i++ {
+				e, ok := elems[i].build(v)
+				if !ok {
+					return "", false
+				}
+				parts = append(parts, e)
+			}
+			return fmt.Sprintf("%s{%s}", types.TypeString(t, qualifier), strings.Join(parts, ", ")), true
+		}}, bound
+	case *types.Struct:
+		if depth > 3 {
+			return nil, nil
+		}
+		type fld struct {
+			name string
+			m    *matVal
+		}
+		var flds []fld
+		var qs, bound []string
+		named, _ := t.(*types.Named)
+		for i := 0; i < u.NumFields(); i++ {
+			f := u.Field(i)
+			if !f.Exported() && (named == nil || named.Obj().Pkg() != replayPkg) {
+				continue // cannot be set from the test's package; left zero
+			}
+			switch f.Type().Underlying().(type) {
+			case *types.Basic, *types.Slice, *types.Struct:
+			default:
+				continue
+			}
+			m, b := x.materialise(f.Type(), x.fieldGet(term, t, i), st, depth+1)
+			if m == nil {
+				continue // unsupported field types stay zero
+			}
+			flds = append(flds, fld{f.Name(), m})
+			qs = append(qs, m.queries...)
+			bound = append(bound, b...)
+		}
+		return &matVal{queries: qs, build: func(v map[string]string) (string, bool) {
+			var parts []string
+			for _, f := range flds {
+				e, ok := f.m.build(v)
+				if !ok {
+					return "", false
+				}
+				parts = append(parts, f.name+": "+e)
+			}
+			return fmt.Sprintf("%s{%s}", types.TypeString(t, qualifier), strings.Join(parts, ", ")), true
+		}}, bound
 	case *types.Pointer:
 		if depth > 0 {
 			break
@@ -143,6 +224,9 @@ var replayPkg *types.Package
 func qualifier(p *types.Package) string {
 	if replayPkg != nil && p == replayPkg {
 		return ""
+	}
+	if replayImports != nil {
+		replayImports[p.Path()] = p.Name()
 	}
 	return p.Name()
 }
@@ -244,6 +328,7 @@ func tryReplay(w *World, o *Obligation, cfg RunConfig) (bool, string) {
 		return false, "replay: function has no package\n"
 	}
 	replayPkg = pkg
+	replayImports = map[string]string{}
 	var mats []*matVal
 	var bounds, queries []string
 	for i, p := range fn.Params {
@@ -349,6 +434,11 @@ func tryReplay(w *World, o *Obligation, cfg RunConfig) (bool, string) {
 		prints.WriteString("\t" + ov.goPrint + "\n")
 	}
 	imports := `"fmt"; "testing"`
+	for path := range replayImports {
+		if path != "fmt" && path != "testing" {
+			imports += fmt.Sprintf("; %q", path)
+		}
+	}
 	src := fmt.Sprintf(`package %s
 
 import (%s)
